@@ -67,3 +67,36 @@ func (node *Node) VerifValidateNodeCancelSnapshot(s *common.Snapshot, tx *common
 func (node *Node) VerifValidateMintSnapshot(s *common.Snapshot, tx *common.VersionedTransaction) error {
 	return node.validateMintSnapshot(s, tx)
 }
+
+// ---- acceptance-level hooks (node-operation snapshot validators)
+
+// VerifC29InitChains gives a hook-built Node an empty chain table, so that getOrCreateChain
+// (used by validateNodeAcceptSnapshot) can build chains from the store.
+func (node *Node) VerifC29InitChains() {
+	node.chains = &chainsMap{m: make(map[crypto.Hash]*Chain)}
+}
+
+// VerifC29ChainIdentity reports what getOrCreateChain derives for a chain id: whether a chain
+// exists, whether it has a ConsensusInfo (and its node id and transaction), whether it has state.
+func (node *Node) VerifC29ChainIdentity(id crypto.Hash) (exists, hasInfo, hasState bool, info CNode) {
+	chain := node.getOrCreateChain(id)
+	if chain == nil {
+		return false, false, false, CNode{}
+	}
+	if chain.ConsensusInfo == nil {
+		return true, false, chain.State != nil, CNode{}
+	}
+	return true, true, chain.State != nil, *chain.ConsensusInfo
+}
+
+func (node *Node) VerifC29ValidateNodeAcceptSnapshot(s *common.Snapshot, tx *common.VersionedTransaction, finalized bool) error {
+	return node.validateNodeAcceptSnapshot(s, tx, finalized)
+}
+
+func (node *Node) VerifC29BuildNodeAcceptTransaction(id crypto.Hash, timestamp uint64, finalized bool) (*common.VersionedTransaction, error) {
+	return node.getOrCreateChain(id).buildNodeAcceptTransaction(timestamp, finalized)
+}
+
+func (node *Node) VerifC29BuildNodeRemoveTransaction(nodeId crypto.Hash, timestamp uint64, old *common.VersionedTransaction) (*common.VersionedTransaction, error) {
+	return node.buildNodeRemoveTransaction(nodeId, timestamp, old)
+}
